@@ -2,6 +2,7 @@ package verifh
 
 import (
 	"gorm.io/gorm"
+	"gorm.io/gorm/clause"
 	"gorm.io/gorm/internal/verifrt"
 )
 
@@ -274,4 +275,68 @@ func H_C08_Join(shape int) {
 	}
 	verifrt.Assert(verifrt.Implies(got.t, dn), "C08.join-deleted-row-visible")
 	verifrt.Assert(verifrt.Iff(got.t, verifrt.And(want.t, dn)), "C08.join-rows")
+}
+
+// ---- deleting a value together with selected associations that are soft-delete
+// models: soft by default, physical under Unscoped (by relation name, by
+// clause.Associations)
+
+type SKid struct {
+	ID        uint
+	SParentID uint
+	Name      string
+	DeletedAt gorm.DeletedAt
+}
+
+type SParent struct {
+	ID        uint
+	Name      string
+	Kids      []SKid
+	DeletedAt gorm.DeletedAt
+}
+
+func N_C08_Cascade(tier int) int { return 4 }
+
+func H_C08_Cascade(shape int) {
+	unscoped := shape%2 == 1
+	byName := shape/2 == 0
+	s := NewStore()
+	db := openReal(stubDialector{}, s, &gorm.Config{NowFunc: c07Now})
+	tx := db
+	if unscoped {
+		tx = tx.Unscoped()
+	}
+	if byName {
+		tx = tx.Select("Kids")
+	} else {
+		tx = tx.Select(clause.Associations)
+	}
+	id := uint(verifrt.Intn("id", 1, 1000))
+	res := tx.Delete(&SParent{ID: id})
+	verifrt.Reach("ran")
+	verifrt.Observe("log", s.Kinds())
+	verifrt.Assert(res.Error == nil, "C08.error")
+	kids, parents := 0, 0
+	for _, e := range s.Log {
+		if e.Kind != "EXEC" {
+			continue
+		}
+		onKids, onParents := indexStr(e.Text, "`skids`") >= 0, indexStr(e.Text, "`sparents`") >= 0
+		if !onKids && !onParents {
+			continue
+		}
+		if onKids {
+			kids++
+		} else {
+			parents++
+		}
+		if unscoped {
+			verifrt.Assert(hasPrefix(e.Text, "DELETE FROM "), "C08.unscoped-delete-not-physical")
+		} else {
+			verifrt.Assert(hasPrefix(e.Text, "UPDATE "), "C08.soft-delete-removes-rows")
+			w, ok := whereText(e.Text)
+			verifrt.Assert(ok && indexStr(w, "`deletedat` IS NULL") >= 0, "C08.deleted-row-visible")
+		}
+	}
+	verifrt.Assert(kids == 1 && parents == 1, "C08.cascade-statements")
 }
